@@ -215,7 +215,7 @@ def mk_chain3(depth, layout, tokens=None):
 # buffered PacketFIFO (packetfifo_buffered_progress: 1, packetfifo_buffered_no_livelock: pd + 2).
 # Arbiter with a subset of masters offering (arbiter_progress_subset: 2); packetizer_accepts (W + 1, not measured).
 # Declared and measured only (open statements in the same file): unaligned Packetizer/Depacketizer progress
-# (stability of the Packetizer for every header length: packetizer_stable_partial; its source side:
+# (stability of the Packetizer for every header length: packetizer_stable_all; its source side:
 # packetizer_no_livelock_any).  All are enforced with the usual slack of 2 cycles.
 PK = dict(k_arb=(2, 2), k_disp=1, k_fifo=(1, None), k_fifo_buf=(1, None), k_pk=(1, 1), k_dpk=(1, None),
           k_pk_u=(1, 1))
@@ -714,6 +714,46 @@ def _probe_strideup_param():
     return False, "source.param steady over 3 stalled cycles (%d stability checks)" % mon.checks
 
 
+F_FLUSH = "C04-packetizer-flush-padding-unstable"
+
+
+def _probe_packetizer_flush():
+    """Witness of the (fixed) Packetizer defect: dw = 16, 3-byte header, packet aaaa aaaa aaaa bbcc+last; the
+    residue beat is flushed (source.valid = 1 without sink.valid) while the consumer stalls and the idle producer
+    moves its data lines 0000 -> 00ff -> 0012: source.data must stay 0x00bb (it showed 0xffbb, 0x12bb before)."""
+    from netlist import Netlist
+    from litex.soc.interconnect import stream
+    from litex.soc.interconnect.packet import Header, HeaderField, Packetizer
+    hdr = Header({"a": HeaderField(0, 0, 8), "b": HeaderField(1, 0, 16)}, 3, swap_field_bytes=True)
+    m = Packetizer(stream.EndpointDescription([("data", 16)], hdr.get_layout()),
+                   stream.EndpointDescription([("data", 16)]), hdr)
+    n = Netlist(m)
+    trace = [(1, 0xaaaa, 0, 1), (1, 0xaaaa, 0, 1), (1, 0xaaaa, 0, 1), (1, 0xbbcc, 1, 1),
+             (0, 0x0000, 0, 0), (0, 0x00ff, 0, 0), (0, 0x0012, 0, 0), (0, 0x0000, 0, 1)]
+    pending = None
+    checks = 0
+    for t, (v, d, l, r) in enumerate(trace):
+        n.set(m.sink.valid, v)
+        n.set(m.sink.data, d)
+        n.set(m.sink.last, l)
+        n.set(m.sink.a, 0x11)
+        n.set(m.sink.b, 0x2233)
+        n.set(m.source.ready, r)
+        n.settle()
+        sv, sd, sl = n.getu(m.source.valid), n.getu(m.source.data), n.getu(m.source.last)
+        if pending is not None:
+            checks += 1
+            if not sv or (sd, sl) != pending:
+                return True, "cycle %d: source token changed while valid and not ready: (0x%04x, %d) -> (0x%04x, %d), " \
+                             "valid=%d (flush beat, idle sink data lines moved)" % (t, pending[0], pending[1], sd, sl, sv)
+        pending = (sd, sl) if (sv and not r) else None
+        n.tick(("sys",))
+    if checks < 3:
+        return True, "witness did not reach the stalled flush beat (%d stability checks)" % checks
+    return False, "flush beat steady over %d stalled cycles while the idle sink data lines moved" % checks
+
+
 def probes(ctx):
     fails, what = _probe_strideup_param()
-    return [(F_STRIDE, fails, what)]
+    f2, w2 = _probe_packetizer_flush()
+    return [(F_STRIDE, fails, what), (F_FLUSH, f2, w2)]
